@@ -17,7 +17,8 @@ import ast
 import collections
 import itertools
 
-from checks._reads import OPS, START, GeneStub, expected_depth, fn_body, fold_parse_read, loop_over, read_stub, sample_read
+from checks._reads import (OPS, START, GeneStub, expected_depth, fn_body, fold_load_cn_region, fold_load_sam, fold_parse_read, loop_over,
+                           read_stub, sample_read)
 from sa.cfg import cfg_of
 from sa.fold import Evaluator, Obj, Raised, Unfoldable
 from sa.guards import find_calls
@@ -176,18 +177,32 @@ def r1(repo, res):
     res.ob("C07.R1", repo.func("profile::Profile.get_sam_profile_data"), f, ok,
            expected="profile written from a depth table, then the same table normalised against it -> exactly 2.0 in every covered region",
            found=str({f"{g}:{r}": round(v_, 6) for (g, r), v_ in outp.items()}), key="self-profile-2.0")
-    # length-based pseudo profile and custom region override
+    # length-based pseudo profile and custom region override (the Profile class lifted whole)
+    from checks._profile import ProfileModel
+
     pf = repo.func("profile::Profile.get_sam_profile_data")
-    res.analysed(pf)
-    il = [n for n in ast.walk(pf) if isinstance(n, ast.Assign) and ast.unparse(n.targets[0]).startswith("d[g][r][ri]")
-          and ast.unparse(n.value) == "e - s"]
     pl = repo.func("profile::Profile.load")
-    res.analysed(pl)
-    ov = [n for n in walk_local(pl) if isinstance(n, ast.Assign) and "neutral" in ast.unparse(n.targets[0]) and "value" in ast.unparse(n.targets[0])]
-    ok = bool(il) and bool(ov) and ast.unparse(ov[0].value).replace(" ", "") == "cn_region.end-cn_region.start"
-    res.ob("C07.R1", pl, ov[0] if ov else pl, ok,
+    res.analysed(pf, pl)
+    try:
+        pm = ProfileModel(repo)
+        regions = {("G", "e1", 0): _GR("22", 10, 20), ("G", "e1", 1): _GR("22", 110, 125), ("G", "i1", 0): _GR("22", 20, 27)}
+        doc = pm.write("<illumina>", None, dict(regions), _GR("22", 500, 530), "hg19", {})
+        ok = doc.get("G") == {"e1": [10, 15], "i1": [7]} and doc.get("neutral", {}).get("value") == 30
+        found = f"pseudo-profile {doc.get('G')}, neutral {doc.get('neutral')}"
+        pm.files["aldy.resources.profiles/illumina.yml"] = {"neutral": {"value": 786, "hg19": ["22", 1, 787]}, "G": {"e1": [10, 15]}}
+        gene = Obj(name="G", genome="hg19", regions=[{"e1": _GR("22", 10, 20)}])
+        p1 = pm.load(gene, "illumina", _GR("22", 600, 640))
+        p0 = pm.load(gene, "illumina")
+        ok = ok and p1.neutral_value == 40 and tuple(p1.cn_region) == ("22", 600, 640) and p0.neutral_value == 786 and tuple(p0.cn_region) == ("22", 1, 787)
+        found += f"; illumina with a custom region: neutral value {p1.neutral_value} over {tuple(p1.cn_region)}; without: {p0.neutral_value}"
+    except Unfoldable as e:
+        res.err("C07.R1", f"Profile class outside the folding language: {e}")
+        return
+    except Raised as e:
+        ok, found = False, f"raises {e}"
+    res.ob("C07.R1", pl, pl, ok,
            expected="the uniform pseudo-profile and the custom neutral region are both length-based (end - start), like the per-base sums",
-           found=f"pseudo-profile: {bool(il)}; override: {ast.unparse(ov[0].value) if ov else None}", key="length-based")
+           found=found, key="length-based")
 
 
 def r2(repo, res):
@@ -224,20 +239,9 @@ def loop_iter_name(loop):
     raise AnalysisError(f"read loop at line {loop.lineno} does not iterate a plain name: {ast.unparse(loop.iter)}")
 
 
-def cn_loop(f):
-    return loop_over(f, lambda n: isinstance(n.iter, ast.Name) and any(isinstance(x, ast.Attribute) and x.attr == "_dump_cn" for x in ast.walk(n)))
-
-
 def depth_positions_cn(repo, cigar):
-    f = repo.func("sam::Sample._load_cn_region")
-    loop = cn_loop(f)
-    me = Obj(_dump_cn=collections.defaultdict(int), _prefix="")
-    rd = read_stub(cigar)
-    ev = Evaluator({"self": me, loop_iter_name(loop): [rd], "cn_region": CN}, funcs={"_in_region": lambda a, b, c: True})
-    kind, val = ev.run([loop])
-    if kind == "raise":
-        raise Raised(val)
-    return sorted(p for p, c in me._dump_cn.items() for _ in range(c))
+    table = fold_load_cn_region(repo, [read_stub(cigar)], tuple(CN))
+    return sorted(p for p, c in table.items() for _ in range(c))
 
 
 def depth_positions_profile(repo, cigar):
@@ -292,20 +296,16 @@ def r3(repo, res):
     FLAGS = {"primary": 0, "reverse strand": 0x10, "paired, second in pair": 0x1 | 0x2 | 0x80, "secondary": 0x100, "supplementary": 0x800,
              "secondary + supplementary": 0x900, "duplicate": 0x400, "failed vendor QC": 0x200, "unaligned (no CIGAR)": None}
     try:
-        gl = loop_over(ls, lambda n: any(isinstance(c, ast.Call) and call_name(c).endswith("_parse_read") for c in ast.walk(n)))
-        nl = cn_loop(cnf)
         rows = {}
         for label, fl in FLAGS.items():
             rd = read_stub([(0, 4)], flag=fl, seq="ACGT", quals=[30] * 4) if fl is not None else read_stub(None, seq="ACGT")
-            calls = []
-            me = Obj(_parse_read=lambda *a, **kw: calls.append(a) or ((0, 0, 0), []), gene=Obj(get_wide_region=lambda: "REGION"), _prefix="",
-                     reads=None, _dump_reads=[], is_long_read=False)
-            Evaluator({"self": me, loop_iter_name(gl): [rd], "norm": {}, "muts": {}, "debug": None}, funcs={"_in_region": lambda a, b, c: True}).run([gl])
-            me2 = Obj(_dump_cn=collections.defaultdict(int), _prefix="")
-            Evaluator({"self": me2, loop_iter_name(nl): [rd], "cn_region": CN}, funcs={"_in_region": lambda a, b, c: True}).run([nl])
-            rows[label] = (bool(calls), bool(me2._dump_cn))
+            k_, v_, me, calls = fold_load_sam(repo, [rd])
+            if k_ != "return":
+                raise Raised(str(v_))
+            table = fold_load_cn_region(repo, [rd], tuple(CN))
+            rows[label] = (bool(calls), bool(table))
     except (Unfoldable, Raised) as e:
-        res.err("C07.R3", f"read loops outside folding language: {e}")
+        res.err("C07.R3", f"read loaders outside folding language: {e}")
         return
     differ = {l: v for l, v in rows.items() if v[0] != v[1]}
     res.ob("C07.R3", cnf, cnf, not differ and rows["primary"] == (True, True) and rows["supplementary"] == (False, False)
